@@ -283,3 +283,27 @@ Proof.
     destruct (finish_digest f d t) as [t' b] eqn:Ef. cbn [snd] in Hfin. subst b.
     apply (IH ds (conj Hnt Hft) Hin' Hd). try rewrite Ef. reflexivity.
 Qed.
+
+(* ------------------------------------------------------------------ 1b. accepted slot traces *)
+Lemma remove_tok_length t : forall l, existsb (Nat.eqb t) l = true -> S (length (remove_tok t l)) = length l.
+Proof.
+  induction l as [|x r IH]; cbn [existsb remove_tok length]; [discriminate|].
+  destruct (Nat.eqb_spec x t) as [->|Hne].
+  - rewrite Nat.eqb_refl. reflexivity.
+  - destruct (Nat.eqb_spec t x) as [E|_]; [congruence|]. cbn [orb]. intros H. cbn [length]. rewrite IH by exact H. reflexivity.
+Qed.
+
+(* every trace the executable checker accepts keeps tokens + held constant and never holds more than there are tokens *)
+Theorem slot_trace_sound : forall evs free held mh free' held' mh' n,
+  slot_trace free evs held mh = Some (free', held', mh') ->
+  length free + held = n -> mh <= n -> length free' + held' = n /\ mh' <= n /\ mh <= mh'.
+Proof.
+  induction evs as [|e evs IH]; intros free held mh free' held' mh' n H Hn Hm; cbn [slot_trace] in H.
+  - injection H as <- <- <-. repeat split; [exact Hn|exact Hm|apply le_n].
+  - destruct e as [t|t].
+    + destruct (existsb (Nat.eqb t) free) eqn:E; [|discriminate].
+      pose proof (remove_tok_length t free E) as Hl.
+      destruct (IH _ _ _ _ _ _ n H ltac:(lia) ltac:(lia)) as [A [B C]]. repeat split; [exact A|exact B|lia].
+    + destruct (existsb (Nat.eqb t) free) eqn:E; [discriminate|]. destruct held as [|h]; [discriminate|].
+      destruct (IH _ _ _ _ _ _ n H ltac:(cbn [length]; lia) Hm) as [A [B C]]. repeat split; assumption.
+Qed.
